@@ -367,6 +367,51 @@ def calculus (cmd : String) (tag : Option String) (nums : List FX) (knot : List 
     | _, _ => none
   | none => none
 
+/-- C11 (polynomial pieces): same breakpoints, first piece through k0, adjacent pieces agree at every interior
+breakpoint, each piece = integral of its source piece up to the constant -/
+def pwIntegral (cmd : String) (tag : Option String) (src : List (FX × List FX)) (knot : List FX) (impl : Out) : Option String :=
+  match tag with
+  | some t =>
+    if !t.startsWith "p" then none else
+    match impl, segsRat src with
+    | .segs rs, some ss =>
+      match segsRat rs, knot.mapM (fun k => (unv k).bind F64.toRat?) with
+      | some out, kn =>
+        if out.length != ss.length then some "integral has a different number of pieces"
+        else if out.map (·.1) != ss.map (·.1) then some "integral does not keep every breakpoint"
+        else
+          -- magnitude scale of the construction for the tolerance
+          let endsR := ss.filterMap (fun (e, _) => e.toRat?)
+          let X := (endsR.map ratAbs ++ (kn.getD []).take 1 |>.map ratAbs).foldl rmax 1
+          let mag := (ss.map fun (_, cs) => (cs.zipIdx.map fun (c, i) => ratAbs c * X ^ (i + 1)).foldl (· + ·) 0).foldl (· + ·) 0
+          let ky := match kn with | some [_, y] => ratAbs y | _ => 0
+          let tol := u53 * 256 * (ky + mag) * ((ss.length : Nat) + 1 : Rat)
+          -- each piece's non-constant coefficients are c_i/(i+1)
+          let shapeBad := (List.zip ss out).findSome? fun ((_, cs), (_, os)) =>
+            let expect := cs.zipIdx.map fun (c, i) => c / (((i : Nat) + 1 : Nat) : Rat)
+            if os.length != cs.length + 1 then some "piece has the wrong degree"
+            else if (List.zip os.tail expect).any (fun (o, e) => ratAbs (o - e) > u53 * ratAbs e) then some "piece is not an antiderivative of its source piece (coefficient i is not c_(i-1)/i)"
+            else none
+          match shapeBad with
+          | some w => some w
+          | none =>
+            let firstBad : Option String :=
+              if cmd == "pwindef" || cmd == "segindef" then
+                (match out with | (_, c0 :: _) :: _ => if c0 != 0 then some "indefinite(): first additive constant is not zero" else none | _ => none)
+              else match kn, out with
+                | some [kx, kyv], (_, cs) :: _ => if ratAbs (evalPolyRat cs kx - kyv) > tol then some "first piece does not pass through the knot" else none
+                | _, _ => none
+            match firstBad with
+            | some w => some w
+            | none =>
+              (List.zip out out.tail).findSome? fun ((e, ca), (_, cb)) =>
+                match e.toRat? with
+                | some er => if ratAbs (evalPolyRat ca er - evalPolyRat cb er) > tol then some "adjacent pieces disagree at an interior breakpoint" else none
+                | none => none
+      | _, _ => none
+    | _, _ => none
+  | none => none
+
 /-- C19: an `Ok` value has at least one segment, every end is a normal float, ends are non-decreasing, and
 (reported by the harness) direct evaluation, the stateful evaluator and evaluate_v agree on it without panic -/
 def arbitrary (agree : Option String) (impl : Out) : Option String :=
